@@ -402,13 +402,22 @@ class Run:
         verdicts = judge(A, op, out, B)
         for clause, detail in verdicts:
             self.add(clause, detail, op)
-        if step.get('remid') and any(c == 'C04.payload' for c, _ in verdicts):
-            self.add('C13.history', 'a message with the ids of an earlier one but other content is merged with the earlier content: '
-                     'the result does not depend on the message content alone', op)
+        if op['type'] == 'StorySend' and not op.get('malformed'):
+            from .ops import carried_nodes as _cn
+            sid_ = next((x[2] for x in op['payload'][0][4] if x[0] == 'storyID'), None)
+            earlier = getattr(self, '_sent', {}).get((op['mid'], sid_))
+            if step.get('remid') and earlier is not None and out['exc'] is None:
+                got = RoView(B).story(sid_)
+                if got is not None and notail(got) == earlier and notail(got) != notail(canon(_cn(op)[0])):
+                    self.add('C13.history', 'a message with the ids of an earlier one but other content was merged with the EARLIER '
+                             'content: the result does not depend on the message content alone', op)
+            if not hasattr(self, '_sent'):
+                self._sent = {}
+            self._sent[(op['mid'], sid_)] = notail(canon(_cn(op)[0]))
         if op['type'] == 'RODelete' and out['exc'] is None and not was_completed and not op.get('malformed'):
             self.completed = True
-        if op.get('poison') and out['exc'] is None:
-            self.poisoned = True
+        if op.get('poison'):
+            self.poisoned = True        # accepted or not: from here on the state may hold an element without id
         if op.get('malformed') and out['exc'] is None:
             # whatever a malformed message did when it was accepted is adopted
             self.completed = bool(RoView(B).metas)
